@@ -126,7 +126,9 @@ static const char *BADHDRS[] = { "{\"typ\":\"JWT\"}", "{\"alg\":256}", "{\"alg\"
 	"{\"alg\":\"HS256\\u0000\"}", "{\"alg\":\"\"}", "{\"alg\":true}", "{\"alg\":\"%s%s%s%s%n\"}", "{\"alg\":\"HS256\",\"typ\":\"%n%n%s\",\"kid\":\"%999999d\"}" };
 static const char *PAYLOADS[] = { "{\"iss\":\"c06\"}", "{\"iss\":\"c06\",\"exp\":99999999999,\"admin\":true,\"nested\":{\"a\":[1,2,3]}}",
 	"{\"iss\":\"c06\",\"nbf\":0,\"sub\":\"\\u00e9\\ud83d\\ude00\"}", "{\"iss\":\"c06\",\"exp\":1}", "{\"iss\":\"other\"}", "{}",
-	"{\"iss\":\"c06\",\"exp\":\"soon\"}", "{\"iss\":\"c06\",\"n\":1e400}", "{\"iss\":\"c06\",\"n\":-9223372036854775808}" };
+	"{\"iss\":\"c06\",\"exp\":\"soon\"}", "{\"iss\":\"c06\",\"n\":1e400}", "{\"iss\":\"c06\",\"n\":-9223372036854775808}",
+	"{\"iss\":\"c06\",\"exp\":-9223372036854775808,\"nbf\":-9223372036854775807}", "{\"iss\":\"c06\",\"exp\":9223372036854775807,\"nbf\":9223372036854775807}",
+	"{\"iss\":\"c06\",\"exp\":1e308,\"nbf\":-1e308}", "{\"iss\":\"c06\",\"exp\":1.5,\"nbf\":true,\"iat\":null}" };
 static const char *BADPAYLOADS[] = { "", "[", "{\"iss\":\"c06\"", "{\"iss\":\"c06\",}", "nul", "{\"a\":\"\\x\"}", "{\"a\":\"\\ud800\"}", "{\"iss\":\"c06\"}}",
 	"\"str\"", "12", "true", "null", "[1,2]", "{\"a\":\"\x80\"}", "{\"iss\":\"c06\"}\x01", "{\"a\":18446744073709551616}" };
 
@@ -175,7 +177,7 @@ static void gen_case(long idx)
 		tok = make_valid(kidx, HDRS[vh_below(&rng, 7)], PAYLOADS[vh_below(&rng, 3)]);
 		break;
 	case 1:	/* valid with duplicate alg members / odd payloads */
-		tok = make_valid(kidx, HDRS[vh_below(&rng, 9)], PAYLOADS[vh_below(&rng, 9)]);
+		tok = make_valid(kidx, HDRS[vh_below(&rng, 9)], PAYLOADS[vh_below(&rng, 13)]);
 		break;
 	case 2: { /* malformed header JSON, correctly signed */
 		const char *h = BADHDRS[vh_below(&rng, sizeof(BADHDRS) / sizeof(*BADHDRS))];
@@ -292,7 +294,7 @@ static void gen_case(long idx)
 			memset(hdr + o, "AZx%"[vh_below(&rng, 4)], (size_t)n); strcpy(hdr + o + n, "\"}");
 		} else
 			snprintf(hdr, sizeof(hdr), "{\"alg\":\"%s\"}", ALGS[vh_below(&rng, 10)]);
-		{ const char *pl = PAYLOADS[vh_below(&rng, 9)]; tok = token_from_parts(hdr, strlen(hdr), pl, strlen(pl), kidx); }
+		{ const char *pl = PAYLOADS[vh_below(&rng, 13)]; tok = token_from_parts(hdr, strlen(hdr), pl, strlen(pl), kidx); }
 		break;
 	}
 	case 16: { /* length classes of segments: 1,2,3 mod 4 by cutting chars off each segment */
